@@ -9,10 +9,14 @@ package main
 import (
 	_ "crypto/sha256"
 	_ "crypto/sha512"
+	"errors"
 	"fmt"
 	"net/url"
+	"strconv"
 	"strings"
 
+	"github.com/opencontainers/go-digest"
+	"oras.land/oras-go/v2/errdef"
 	"oras.land/oras-go/v2/registry"
 	"oras.land/oras-go/v2/registry/remote"
 	"verifharness/common"
@@ -215,6 +219,31 @@ func grammar(s string) (bool, bool, registry.Reference) {
 	return true, false, zero
 }
 
+// errObs maps an error to the observable: ERR = wraps errdef.ErrInvalidReference (the only
+// error the parsers may return), ERRX = anything else (an oracle failure).
+func errObs(id, fn, in string, err error, replay any) string {
+	if err == nil {
+		return ""
+	}
+	if errors.Is(err, errdef.ErrInvalidReference) {
+		return "ERR"
+	}
+	run.OracleFail(id, "error-identity", fmt.Sprintf("%s(%q) failed with %v, which does not wrap errdef.ErrInvalidReference", fn, in, err), replay)
+	return "ERRX"
+}
+
+// registryBadByte: bytes that no accepted registry may contain: controls and space, '#', '%',
+// '/', '?', '@', '\\', DEL (they end the authority, introduce user-info or an escape).
+func registryBadByte(reg string) (byte, bool) {
+	for i := 0; i < len(reg); i++ {
+		switch c := reg[i]; {
+		case c <= ' ', c == '#', c == '%', c == '/', c == '?', c == '@', c == '\\', c == 0x7f:
+			return c, true
+		}
+	}
+	return 0, false
+}
+
 func showRef(r registry.Reference) string {
 	return fmt.Sprintf("OK %s %s %s", common.Hex(r.Registry), common.Hex(r.Repository), common.Hex(r.Reference))
 }
@@ -224,11 +253,17 @@ func showRef(r registry.Reference) string {
 func parseCase(s string) {
 	id := run.NewID()
 	ref, err := registry.ParseReference(s)
-	obs := "ERR"
+	obs := errObs(id, "ParseReference", s, err, map[string]string{"op": "P", "input": s})
 	if err == nil {
 		obs = showRef(ref) + " FMT " + common.Hex(ref.String())
 		run.Nontrivial("P:" + s)
 		run.Count("parse_ok")
+		// the registry of an accepted reference is a URL authority: none of the bytes that
+		// end or restructure an authority (this is the hypothesis of theorem C20_url_exact)
+		if c, bad := registryBadByte(ref.Registry); bad {
+			run.OracleFail(id, "registry-charset", fmt.Sprintf("ParseReference(%q) accepted registry %q containing byte %#x", s, ref.Registry, c),
+				map[string]string{"op": "P", "input": s})
+		}
 	} else {
 		run.Count("parse_err")
 	}
@@ -332,25 +367,62 @@ func urlCase(kind string, plain bool, ref registry.Reference) {
 	run.Count("url_" + kind)
 }
 
+// baseJudged: the property's Repository clauses are judged for bases that are themselves valid
+// (a literal &Repository{Reference: ...} is not validated by the library; such bases are still
+// generated and compared with the model, but not judged by the oracle).
+func baseJudged(base registry.Reference) bool {
+	return registryVerdict(base.Registry) == 1 && okRepository(base.Repository)
+}
+
+// namesOtherRepository: ground truth for "other registries or repositories".  A reference string
+// that contains a '/' before its first '@' is a path (tags and digests never contain '/'): it names
+// the base repository only when it is <base registry>/<base repository> followed by the end, ':' or
+// '@'.  Anything else with a '/' names something that is not the base, well-formed or not.
+func namesOtherRepository(base registry.Reference, s string) bool {
+	head := s
+	if i := strings.IndexByte(s, '@'); i >= 0 {
+		head = s[:i]
+	}
+	if !strings.Contains(head, "/") {
+		return false
+	}
+	b := base.Registry + "/" + base.Repository
+	if !strings.HasPrefix(s, b) {
+		return true
+	}
+	rest := s[len(b):]
+	return !(rest == "" || rest[0] == ':' || rest[0] == '@')
+}
+
 func repoCase(base registry.Reference, s string) {
 	id := run.NewID()
 	repo := &remote.Repository{Reference: base}
+	rep := map[string]string{"op": "R", "registry": base.Registry, "repository": base.Repository, "basereference": base.Reference, "input": s}
 	ref, err := repo.ParseReference(s)
-	obs := "ERR"
+	obs := errObs(id, fmt.Sprintf("Repository(%v).ParseReference", base), s, err, rep)
+	judged := baseJudged(base)
+	if !judged {
+		run.Count("repo_base_unjudged")
+	}
 	if err == nil {
 		obs = showRef(ref)
 		run.Nontrivial("R:" + base.String() + "|" + s)
 		run.Count("repo_ok")
 		if ref.Registry != base.Registry || ref.Repository != base.Repository || ref.Reference == "" {
-			run.OracleFail(id, "repo-foreign", fmt.Sprintf("Repository(%v).ParseReference(%q) = %+v leaves the base", base, s, ref),
-				map[string]string{"op": "R", "registry": base.Registry, "repository": base.Repository, "input": s})
+			run.OracleFail(id, "repo-foreign", fmt.Sprintf("Repository(%v).ParseReference(%q) = %+v leaves the base", base, s, ref), rep)
 		}
 		if !okTag(ref.Reference) && !okDigest(ref.Reference) {
-			run.OracleFail(id, "repo-invalid-reference", fmt.Sprintf("Repository(%v).ParseReference(%q) = %+v: reference neither tag nor digest", base, s, ref),
-				map[string]string{"op": "R", "registry": base.Registry, "repository": base.Repository, "input": s})
+			run.OracleFail(id, "repo-invalid-reference", fmt.Sprintf("Repository(%v).ParseReference(%q) = %+v: reference neither tag nor digest", base, s, ref), rep)
+		}
+		if judged && namesOtherRepository(base, s) {
+			run.Count("repo_other_path_accepted")
+			run.OracleFail(id, "repo-foreign-path", fmt.Sprintf("Repository(%v).ParseReference(%q) = %+v: the input names a path that is not the base repository, yet it is accepted and re-targeted to the base", base, s, ref), rep)
 		}
 	} else {
 		run.Count("repo_err")
+		if namesOtherRepository(base, s) {
+			run.Count("repo_other_path_rejected")
+		}
 	}
 	run.Case(id, fmt.Sprintf("R %s %s %s", common.Hex(base.Registry), common.Hex(base.Repository), common.Hex(s)), obs)
 }
@@ -373,7 +445,10 @@ func formsAgree(base registry.Reference, tag, dg string) {
 	// other registry / repository / empty are rejected
 	// docker.io is sent to registry-1.docker.io, but the two names are different registries
 	alias := map[string]string{"docker.io": "registry-1.docker.io", "registry-1.docker.io": "docker.io"}[base.Registry]
-	foreign := []string{"", "other.io/" + base.Repository + ":" + tag, base.Registry + "/other/" + base.Repository + ":" + tag, b}
+	foreign := []string{"", "other.io/" + base.Repository + ":" + tag, base.Registry + "/other/" + base.Repository + ":" + tag, b,
+		// malformed foreign references carrying a valid digest: still other registries / repositories
+		"ghcr.io/Org/app@" + dg, "ghcr.io/Org/app:" + tag + "@" + dg, "evil.example:bad/x@" + dg, "other.io/" + strings.ToUpper(base.Repository) + "@" + dg,
+		base.Registry + "/" + base.Repository + "x@" + dg, base.Registry + "/" + base.Repository + "/@" + dg, tag + "/" + tag + "@" + dg, "/@" + dg}
 	if alias != "" {
 		foreign = append(foreign, alias+"/"+base.Repository+":"+tag, alias+"/"+base.Repository+"@"+dg, alias+"/"+base.Repository)
 	}
@@ -444,9 +519,139 @@ func randomValid(r *common.Rand) string {
 	case 1:
 		return s + ":" + tag()
 	case 2:
+		if r.Bool() {
+			return s + "@" + randDigest(r)
+		}
 		return s + "@" + common.Pick(r, digestPool)
 	default:
-		return s + ":" + tag() + "@" + common.Pick(r, digestPool)
+		t := tag()
+		if r.Chance(1, 3) {
+			t = randJunk(r)
+		}
+		if r.Bool() {
+			return s + ":" + t + "@" + randDigest(r)
+		}
+		return s + ":" + t + "@" + common.Pick(r, digestPool)
+	}
+}
+
+// randDigest: a digest with random mixed hex (boundary characters '0' '9' 'a' 'f' over-represented),
+// valid with probability ~1/2, otherwise with one realistic defect.
+func randDigest(r *common.Rand) string {
+	algs := []struct {
+		name string
+		n    int
+	}{{"sha256", 64}, {"sha384", 96}, {"sha512", 128}}
+	a := common.Pick(r, algs)
+	hexc := "0123456789abcdef09af09af"
+	bs := make([]byte, a.n)
+	for i := range bs {
+		bs[i] = hexc[r.Intn(len(hexc))]
+	}
+	name := a.name
+	switch r.Intn(14) {
+	case 0:
+		bs[r.Intn(len(bs))] = "gG/:@FA`"[r.Intn(8)]
+	case 1:
+		bs = bs[:len(bs)-1]
+	case 2:
+		bs = append(bs, 'f')
+	case 3:
+		name = common.Pick(r, otherAlgs)
+	case 4:
+		name = common.Pick(r, algs).name // possibly wrong length for the algorithm
+	case 5:
+		bs = bs[:r.Intn(3)]
+	case 6:
+		name = strings.ToUpper(name[:1]) + name[1:]
+	}
+	return name + ":" + string(bs)
+}
+
+// algorithm names go-digest v1.0.0 does not register (or that other versions / callers might)
+var otherAlgs = []string{"sha1", "md5", "sha224", "sha512-256", "sha512_256", "sha3-256", "blake3", "blake2b", "sha256+b64", "sha256.x", "multihash+base58", "sha", "", "SHA256", "sha-256"}
+
+// junk: what may stand between ':' and '@' (a tag that is dropped unvalidated): valid tags, and
+// strings with ':', '/', invalid tag characters, over-long ones
+func randJunk(r *common.Rand) string {
+	switch r.Intn(6) {
+	case 0:
+		return common.Pick(r, []string{"v1", "latest", "A.b-c_d", ""})
+	case 1:
+		return common.Pick(r, []string{"a:b", "a/b", "v1:", ":v1", "-x", ".x", "a b", "a%41", "a?b", "a#b", "\xc3\xa9", "../x", "//", "x/y:z"})
+	case 2:
+		return strings.Repeat("x", 120+r.Intn(20))
+	default:
+		n := 1 + r.Intn(6)
+		cs := "abzAZ09_.-:/ ?#%+~!"
+		var sb strings.Builder
+		for i := 0; i < n; i++ {
+			sb.WriteByte(cs[r.Intn(len(cs))])
+		}
+		return sb.String()
+	}
+}
+
+// otherPath: a reference string naming a path that is NOT the base repository: well-formed foreign
+// references and malformed ones (invalid repository / registry) with and without digest
+func otherPath(r *common.Rand, base registry.Reference) string {
+	regs := []string{"ghcr.io", "other.io", "evil.example:bad", "localhost:5000", "docker.io", "registry-1.docker.io", "a", "UP.example", "h?x", "u@h", "", base.Registry, base.Registry + "x", strings.ToUpper(base.Registry)}
+	repos := []string{"Org/app", "org/app", "a", "a/b", "A", "a//b", "a/", "-a", "a_", "a..b", "library/x", base.Repository, base.Repository + "x", base.Repository + "/x", "x/" + base.Repository, strings.ToUpper(base.Repository), ""}
+	for {
+		reg, rp := common.Pick(r, regs), common.Pick(r, repos)
+		if reg == base.Registry && rp == base.Repository {
+			continue
+		}
+		s := reg + "/" + rp
+		switch r.Intn(6) {
+		case 0:
+			s += ":v1"
+		case 1:
+			s += ":" + randJunk(r) + "@" + randDigest(r)
+		case 2:
+			s += ":v1@" + digestPool[r.Intn(4)]
+		case 3:
+			s += "@" + randDigest(r)
+		default:
+			s += "@" + digestPool[r.Intn(4)]
+		}
+		return s
+	}
+}
+
+// componentCase: one validator on one component ("repo", "tag", "digest"): implementation vs
+// model (correspondence) vs the hand-written recogniser (oracle)
+func componentCase(kind, s string) {
+	id := run.NewID()
+	var got, want bool
+	switch kind {
+	case "repo":
+		got, want = registry.Reference{Repository: s}.ValidateRepository() == nil, okRepository(s)
+	case "tag":
+		got, want = registry.Reference{Reference: s}.ValidateReferenceAsTag() == nil, okTag(s)
+	case "digest":
+		got, want = digest.Digest(s).Validate() == nil, okDigest(s)
+		if got2 := (registry.Reference{Reference: s}).ValidateReferenceAsDigest() == nil; got2 != got {
+			run.OracleFail(id, "component-digest", fmt.Sprintf("ValidateReferenceAsDigest(%q)=%v but go-digest Validate=%v", s, got2, got), map[string]string{"op": "V", "kind": kind, "input": s})
+		}
+	}
+	run.Case(id, "V "+kind+" "+common.Hex(s), fmt.Sprintf("VALID %v", got))
+	run.Count("component_" + kind)
+	if got {
+		run.Nontrivial("V:" + kind + ":" + s)
+		run.Count("component_" + kind + "_ok")
+	}
+	if got != want {
+		run.OracleFail(id, "component-"+kind, fmt.Sprintf("%s validator accepts %q = %v, documented rule says %v", kind, s, got, want),
+			map[string]string{"op": "V", "kind": kind, "input": s})
+	}
+}
+
+func randDigestValid(r *common.Rand) string {
+	for {
+		if d := randDigest(r); okDigest(d) {
+			return d
+		}
 	}
 }
 
@@ -513,31 +718,80 @@ func main() {
 		parseCase("localhost/a:_" + strings.Repeat("-", n-1))
 	}
 
+	// components on their own: repository rule exhaustively over its own alphabet, digests
+	// with random mixed hex and algorithm names, tags around the length bound
+	repoLen := run.Scale(7, 9)
+	enumerate([]string{"a", "0", ".", "_", "-", "/"}, repoLen, func(s string) { componentCase("repo", s) })
+	run.Extra["repository_exhaustive_length"] = repoLen
+	for _, s := range []string{"A", "a b", "a:b", "a@b", "a\x00", "\xc3\xa9", "a/b/c/d/e", "a--__b", "a__--b", "a_-b", "a._b", "a-.b", "a___b", strings.Repeat("a", 300)} {
+		componentCase("repo", s)
+	}
+	for i := 0; i < run.Scale(20000, 300000); i++ {
+		d := randDigest(r)
+		if r.Chance(1, 5) {
+			d = mutate(r, d)
+		}
+		componentCase("digest", d)
+	}
+	for _, d := range digestPool {
+		componentCase("digest", d)
+	}
+	for _, a := range otherAlgs {
+		for _, n := range []int{32, 40, 56, 64, 96, 128} {
+			componentCase("digest", hexDigest(a, n, 'a'))
+		}
+	}
+	enumerate([]string{"a", "A", "0", "_", ".", "-", ":", "/"}, run.Scale(4, 5), func(s string) { componentCase("tag", s) })
+	for _, n := range []int{127, 128, 129} {
+		componentCase("tag", strings.Repeat("a", n))
+		componentCase("tag", "_"+strings.Repeat(".", n-1))
+	}
+
 	// Repository.ParseReference
 	bases := []registry.Reference{
 		{Registry: "localhost:5000", Repository: "hello/world"},
 		{Registry: "docker.io", Repository: "library/x"},
 		{Registry: "a", Repository: "a"},
 		{Registry: "registry-1.docker.io", Repository: "library/x"},
+		{Registry: "UP.Example.COM", Repository: "a/b-c", Reference: "v9"},            // upper-case host, base Reference set
+		{Registry: "127.0.0.1:443", Repository: "a__b/c.d", Reference: digestPool[0]}, // base Reference = digest
+		// bases the library does not validate (a literal Repository{}): not judged by the oracle,
+		// compared with the model
+		{Registry: "[::1]:5000", Repository: "x"},
+		{Registry: "reg:", Repository: "x"},
+		{Registry: "localhost", Repository: "Up/x"},
+		{Registry: "h?q", Repository: "x"},
+		{Registry: "", Repository: ""},
 	}
 	for _, base := range bases {
+		if !baseJudged(base) {
+			continue
+		}
 		for _, tag := range []string{"v1", "latest", "A.b-c_d", strings.Repeat("x", 128)} {
 			for _, d := range digestPool[:4] {
 				formsAgree(base, tag, d)
 			}
+			formsAgree(base, tag, randDigestValid(r))
 		}
+	}
+	for _, base := range bases {
 		enumerate(alphabet, run.Scale(3, 4), func(s string) { repoCase(base, s) })
 		for i := 0; i < run.Scale(3000, 60000); i++ {
 			var s string
-			switch r.Intn(5) {
+			switch r.Intn(8) {
 			case 0:
 				s = randomValid(r)
 			case 1:
-				s = base.Registry + "/" + base.Repository + common.Pick(r, []string{":v1", "@" + digestPool[0], ":v1@" + digestPool[0], "", ":", "@"})
+				s = base.Registry + "/" + base.Repository + common.Pick(r, []string{":v1", "@" + digestPool[0], ":v1@" + digestPool[0], "", ":", "@",
+					":" + randJunk(r) + "@" + randDigest(r), "@" + randDigest(r), ":" + randJunk(r)})
 			case 2:
 				s = common.Pick(r, digestPool)
 			case 3:
 				s = "t" + "@" + common.Pick(r, digestPool)
+			case 4:
+				s = randJunk(r) + "@" + randDigest(r)
+			case 5, 6:
+				s = otherPath(r, base)
 			default:
 				s = common.Pick(r, []string{"v1", "a/b", "a:b", "@", ":", "a@b", "sha256:abc"})
 			}
@@ -550,22 +804,41 @@ func main() {
 
 	// reference-taking operations: requests built from the resolved reference
 	for _, base := range bases {
+		if strings.HasSuffix(base.Registry, ":") {
+			// net/http strips an empty port from the request URL (http://reg:/ is sent as
+			// http://reg/): same authority, different string; such bases are exercised by the
+			// Repository.ParseReference cases only
+			run.Count("op_base_empty_port_skipped")
+			continue
+		}
+		if !baseJudged(base) {
+			// an unvalidated literal base (outside the property's quantifier) is exercised by the
+			// Repository.ParseReference cases only: what net/http does with such a host is not modelled
+			run.Count("op_base_invalid_skipped")
+			continue
+		}
 		for _, tag := range []string{"v1", "A.b-c_d", strings.Repeat("x", 128)} {
 			for _, d := range digestPool[:4] {
 				opForms(base, tag, d)
 			}
+			opForms(base, tag, randDigestValid(r))
 		}
 		for i := 0; i < run.Scale(1500, 30000); i++ {
 			var s string
-			switch r.Intn(5) {
+			switch r.Intn(8) {
 			case 0:
 				s = randomValid(r)
 			case 1:
-				s = base.Registry + "/" + base.Repository + common.Pick(r, []string{":v1", "@" + digestPool[0], ":v1@" + digestPool[0], "", ":", "@"})
+				s = base.Registry + "/" + base.Repository + common.Pick(r, []string{":v1", "@" + digestPool[0], ":v1@" + digestPool[0], "", ":", "@",
+					":" + randJunk(r) + "@" + randDigest(r), "@" + randDigest(r), ":" + randJunk(r)})
 			case 2:
 				s = common.Pick(r, digestPool)
 			case 3:
 				s = "t" + "@" + common.Pick(r, digestPool)
+			case 4:
+				s = randJunk(r) + "@" + randDigest(r)
+			case 5, 6:
+				s = otherPath(r, base)
 			default:
 				s = common.Pick(r, []string{"v1", "a/b", "a:b", "@", ":", "a@b", "sha256:abc", "v1@", "v 1", "v1?x=1", "v1#f", "../x"})
 			}
@@ -593,9 +866,20 @@ func replay(path string) {
 		case "P":
 			parseCase(c["input"])
 		case "R":
-			repoCase(registry.Reference{Registry: c["registry"], Repository: c["repository"]}, c["input"])
+			repoCase(registry.Reference{Registry: c["registry"], Repository: c["repository"], Reference: c["basereference"]}, c["input"])
+		case "V":
+			componentCase(c["kind"], c["input"])
 		case "O":
-			opCase(registry.Reference{Registry: c["registry"], Repository: c["repository"]}, c["kind"], c["plain"] == "true", c["input"], c["want"])
+			// a replay without a variant (made from a model/implementation mismatch) runs all of them
+			lo, hi := 0, 7
+			if v, err := strconv.Atoi(c["variant"]); err == nil {
+				lo, hi = v, v
+			}
+			for v := lo; v <= hi; v++ {
+				forcedVariant = v
+				opCase(registry.Reference{Registry: c["registry"], Repository: c["repository"]}, c["kind"], c["plain"] == "true", c["input"], c["want"])
+			}
+			forcedVariant = -1
 		case "U":
 			ref := registry.Reference{Registry: c["registry"], Repository: c["repository"], Reference: c["reference"]}
 			checkURL(run.NewID(), c["kind"], c["plain"] == "true", ref)
